@@ -1,6 +1,8 @@
 import Pff.Consts
 import Pff.Model.Vote
 import Pff.Model.Diff
+import Pff.Model.Scan
+import Pff.Model.Tamper
 /-!
 Line-protocol driver: one request per line on stdin, one canonical reply per line on stdout.
 Run with `lake env lean --run Pff/Driver.lean`. Byte strings are hex ("-" = empty); lists of
@@ -47,8 +49,51 @@ def parseTree (toks : List String) : Option Pff.Diff.Tree :=
 def splitAt (sep : String) (toks : List String) : List String × List String :=
   (toks.takeWhile (· ≠ sep), (toks.dropWhile (· ≠ sep)).drop 1)
 
+def parseTamperParams (mode blockCoin burst header bs : String) : Option Pff.Tamper.Params := do
+  let m ← match mode with
+    | "e" => some Pff.Tamper.Mode.erasure | "n" => some Pff.Tamper.Mode.noise | "o" => some Pff.Tamper.Mode.other
+    | _ => none
+  let bc ← blockCoin.toNat?
+  let bu ← burst.toNat?
+  let h ← if header == "-" then some none else header.toNat?.map some
+  let bs ← bs.toNat?
+  some { mode := m, blockCoin := bc ≠ 0, burst := bu ≠ 0, header := h, blocksize := bs }
+
 def handle (toks : List String) : String :=
   match toks with
+  | ["tamper", mode, blockCoin, burst, header, bs, content, rho] =>
+    match parseTamperParams mode blockCoin burst header bs, parseHex content, parseNums rho with
+    | some P, some c, some ρ =>
+      let r := Pff.Tamper.tamperFile P c ρ
+      s!"{toHex r.content} {r.count} {r.total} {r.rest.length}"
+    | _, _, _ => "bad-op"
+  | "tamperdir" :: mode :: blockCoin :: burst :: header :: bs :: rho :: files =>
+    match parseTamperParams mode blockCoin burst header bs, parseNums rho, parseTree files with
+    | some P, some ρ, some fs =>
+      let r := Pff.Tamper.tamperDir P fs ρ
+      let fl := " ".intercalate (r.files.map (fun pc => s!"{pc.1}:{toHex pc.2}"))
+      s!"{r.filesTampered} {r.filesCount} {r.count} {r.total} {r.rest.length} {fl}"
+    | _, _, _ => "bad-op"
+  | ["gne", bs, pos, marker, stream] =>
+    match bs.toNat?, pos.toNat?, parseHex marker, parseHex stream with
+    | some bs, some pos, some m, some s =>
+      match Pff.Scan.getNextEntry false s m bs pos with
+      | (some (a, b), p) => s!"{a},{b} {p}"
+      | (none, p) => s!"none {p}"
+    | _, _, _, _ => "bad-op"
+  | ["gnec", bs, pos, marker, stream] =>
+    match bs.toNat?, pos.toNat?, parseHex marker, parseHex stream with
+    | some bs, some pos, some m, some s =>
+      match Pff.Scan.getNextEntryContent false s m bs pos with
+      | (some c, p) => s!"{toHex c} {p}"
+      | (none, p) => s!"none {p}"
+    | _, _, _, _ => "bad-op"
+  | ["scanall", bs, marker, stream] =>
+    match bs.toNat?, parseHex marker, parseHex stream with
+    | some bs, some m, some s =>
+      let r := Pff.Scan.scanAll false s m bs (s.length + 2) 0
+      if r.isEmpty then "-" else " ".intercalate (r.map (fun ab => s!"{ab.1},{ab.2}"))
+    | _, _, _ => "bad-op"
   | "diffbytesdir" :: bs :: rest =>
     let (a, b) := splitAt ";" rest
     match bs.toNat?, parseTree a, parseTree b with
